@@ -286,6 +286,36 @@ theorem buffer_write_then_read (b : BitBuffer) (src dst : List Byte) (off len : 
     simp only [h3, WOp.bitsWritten]
     rw [List.getElem_append_right (by simp [BitBuffer.abs])]
     simp [BitBuffer.abs, getElem_bitsOf]
+/-- every history: after ANY sequence of valid writes (single bits and bit runs, any lengths and
+    offsets) into a fresh buffer, one read of the total number of bits returns exactly the
+    concatenation of everything written, in order, and leaves the buffer read to its end. -/
+theorem ops_then_read_all (ops : List WOp) (dst : List Byte) (hv : ∀ op ∈ ops, op.Valid)
+    (hd : ((ops.map WOp.bitsWritten).flatten).length ≤ dst.length * 8) :
+    ∃ b' dst' b'', runOps {} ops = ok b' ∧
+      b'.readBitsWithOffsetLen dst 0 ((ops.map WOp.bitsWritten).flatten).length = ok (dst', b'') ∧
+      bitsOf dst' 0 ((ops.map WOp.bitsWritten).flatten).length = (ops.map WOp.bitsWritten).flatten ∧
+      b''.rp = b''.wp := by
+  obtain ⟨b', h1, h2, h3, h4⟩ := ops_inv {} ops BitBuffer.inv_default hv
+  have habs0 : ({} : BitBuffer).abs = [] := by simp [BitBuffer.abs, bitsOf]
+  rw [habs0, List.nil_append] at h3
+  generalize hN : ((ops.map WOp.bitsWritten).flatten) = bits at *
+  have hwp : b'.wp = bits.length := by
+    have := congrArg List.length h3
+    simpa [BitBuffer.abs] using this
+  have hrp : b'.rp = 0 := by rw [h4]
+  obtain ⟨dst', g1, g2, g3⟩ :=
+    (buffer_read b' dst 0 bits.length h2 (by omega) (by omega)).1 (by omega)
+  refine ⟨b', dst', _, h1, g1, ?_, by simp; omega⟩
+  apply List.ext_getElem
+  · simp
+  · intro i hi1 hi2
+    rw [getElem_bitsOf, g3]
+    have hc : (0 ≤ 0 + i ∧ 0 + i < 0 + bits.length) := by omega
+    rw [if_pos hc]
+    have e1 : getBit b'.buffer (b'.rp + (0 + i - 0)) = (b'.abs)[i]'(by simp [BitBuffer.abs]; omega) := by
+      simp only [BitBuffer.abs]; rw [getElem_bitsOf]; congr 1; omega
+    rw [e1]
+    simp only [h3]
 /-- the read-only view `Bits`: same, bounded by its declared bit length, not by the slice -/
 theorem bits_read (b : BitsView) (dst : List Byte) (off len : Nat) (h : b.Inv)
     (hd : off + len ≤ dst.length * 8) :
@@ -322,6 +352,9 @@ example : (BitBuffer.mk [0xa8#8] 5 5).Inv ∧ (3 : Nat) + 9 ≤ [0xAB#8, 0xCD#8]
   · have : j = 5 ∨ j = 6 ∨ j = 7 := by simp at hj; omega
     rcases this with rfl | rfl | rfl <;> decide
   · exact getBit_of_ge _ j (by simp; omega)
+-- `ops_then_read_all`: a non-trivial history satisfying its hypotheses
+example : (∀ op ∈ [WOp.bit true, WOp.bits [0xAB#8, 0xCD#8] 3 9, WOp.bit false], op.Valid) := by
+  simp [WOp.Valid]
 -- `placed_write`: a 12-bit buffer, 5 bits from source offset 2 placed at position 3
 example : (BitBuffer.mk [0xff#8, 0xf0#8] 12 0).atPos 3 (fun b => b.writeBitsWithOffsetLen [0x00#8] 2 5)
     = ok (BitBuffer.mk [0xe0#8, 0xf0#8] 12 0) := by decide
